@@ -46,16 +46,16 @@ type Exec struct {
 	rememberedInt map[string]bool
 	retEdge       string
 	// path replay of return regions (see planSplits)
-	splitJoin map[*ssa.BasicBlock]bool
-	inRegion  map[*ssa.BasicBlock]bool
-	splitIn   map[*ssa.BasicBlock]*splitEdges
-	retMode   int  // 0 normal, 1 merged run inside a split region (postconditions deferred), 2 path replay
-	quiet     bool // path replay: no obligations except those of the return
-	allowObl  bool
-	pathNo    int
-	replaySE  *splitEdges
-	replayH0  int
-	replayQ0  int
+	splitJoin     map[*ssa.BasicBlock]bool
+	inRegion      map[*ssa.BasicBlock]bool
+	splitIn       map[*ssa.BasicBlock]*splitEdges
+	retMode       int  // 0 normal, 1 merged run inside a split region (postconditions deferred), 2 path replay
+	quiet         bool // path replay: no obligations except those of the return
+	allowObl      bool
+	pathNo        int
+	replaySE      *splitEdges
+	replayH0      int
+	replayQ0      int
 	nWF           int // number of hypotheses before the function's own requires were assumed
 	extraRequires []*SExpr
 	noReturnOK    bool
